@@ -365,6 +365,13 @@ void add_tuples()
         []<class L>(int x, int y) { return tuple_eq_hetero<L>(x, y, static_cast<std::tuple<int, long, short>*>(nullptr), static_cast<std::tuple<short, int, TCM>*>(nullptr)); }, tie0, "tuple.eq.first_elements_tie");
     add_family("tuple.eq_hetero<i,i,i,i|l,s,l,s>", "tuple.eq", 81, 81,
         []<class L>(int x, int y) { return tuple_eq_hetero<L>(x, y, static_cast<std::tuple<int, int, int, int>*>(nullptr), static_cast<std::tuple<long, short, long, short>*>(nullptr)); }, tie0, "tuple.eq.first_elements_tie");
+    // default construction value-initialises every element
+    add_family("tuple.default_ctor<i,cm,l>", "tuple.ops", 1, 1, []<class L>(int, int) {
+        using T = typename L::template tuple<int, TCM, long>;
+        T t;
+        T u{};
+        return out2("t", show_tuple<L>(t), "u", show_tuple<L>(u));
+    });
     // reference elements: swap exchanges the referenced objects, equality reads through, a copy aliases
     add_family("tuple.ref_elements<ir,i>", "tuple.ops", 9, 9, []<class L>(int x, int y) {
         int a = x % 3, b = y % 3;
